@@ -382,10 +382,12 @@ Lemma main_perm_alignment_matrices : forall F (Fo : FieldOps F) (Ff : IsField F)
   (forall y a, y < n -> w' (p y) a = w y a) ->
   (forall y a b, y < n -> Gx' (p y) a b = Gx y a b) ->
   meq n n (klle_M n k (pnbrs p q nb) w' shift) (pact q (klle_M n k nb w shift)) /\
-  meq n n (kltsa_M n k (pnbrs p q nb) Gx' shift) (pact q (kltsa_M n k nb Gx shift)).
+  meq n n (kltsa_M n k (pnbrs p q nb) Gx' shift) (pact q (kltsa_M n k nb Gx shift)) /\
+  meq n n (hlle_M n k (pnbrs p q nb) Gx') (pact q (hlle_M n k nb Gx)).
 Proof.
   intros F Fo Ff n k p q nb w w' Gx Gx' shift Hb Hr Hw Hg.
-  exact (conj (klle_M_perm n k p q nb w w' shift Hb Hr Hw) (kltsa_M_perm n k p q nb Gx Gx' shift Hb Hr Hg)).
+  exact (conj (klle_M_perm n k p q nb w w' shift Hb Hr Hw) (conj (kltsa_M_perm n k p q nb Gx Gx' shift Hb Hr Hg)
+        (hlle_M_perm n k p q nb Gx Gx' Hb Hr Hg))).
 Qed.
 
 Lemma main_alignment_row_col_sums : forall F (Fo : FieldOps F) (Ff : IsField F) n k nb
